@@ -32,6 +32,37 @@ type TableSpec struct {
 	// Props are properties set on the finished table which mean something to ANOTHER renderer than the one under
 	// test, or to nobody (application keys): the renderer under test must not be influenced by them.
 	Props []PropSpec `json:"other_properties,omitempty"`
+	// Bystanders are callbacks that do nothing, registered on the table or on column 0 before the first row
+	// operation: nothing a renderer does may depend on whether somebody else listens.
+	Bystanders []CbSpec `json:"do_nothing_callbacks,omitempty"`
+}
+
+// CbSpec is one RegisterPropertyCallback call with a callback that does nothing.
+type CbSpec struct {
+	OnColumn0 bool `json:"on_column_0,omitempty"` // else on the table
+	Time      int  `json:"time"`                  // 0 add, 1 pre-cell, 2 render, 3 post-cell
+	Target    int  `json:"target"`                // 0 itself, 1 cell, 2 row
+}
+
+type noopCallback struct{ n *int }
+
+func (c noopCallback) UpdateProperties(tabular.PropertyOwner) error { *c.n++; return nil }
+
+func sliceOf[T any](xs ...T) []T { return xs }
+
+var (
+	cbTimes   = sliceOf(tabular.CB_AT_ADD, tabular.CB_AT_RENDER_PRECELL, tabular.CB_AT_RENDER, tabular.CB_AT_RENDER_POSTCELL)
+	cbTargets = sliceOf(tabular.CB_ON_ITSELF, tabular.CB_ON_CELL, tabular.CB_ON_ROW)
+)
+
+func (s *TableSpec) registerBystanders(t tabular.Table) {
+	for _, b := range s.Bystanders {
+		var owner tabular.PropertyOwner = t
+		if b.OnColumn0 {
+			owner = t.Column(0)
+		}
+		t.RegisterPropertyCallback(owner, cbTimes[b.Time%len(cbTimes)], cbTargets[b.Target%len(cbTargets)], noopCallback{new(int)})
+	}
 }
 
 // PropSpec is one SetProperty call made once the table is complete.
@@ -46,8 +77,9 @@ type PropSpec struct {
 
 // Which library-defined properties may be sprinkled: a check passes the ones its renderer is documented NOT to read.
 const (
-	NoiseSkipable = 1 << iota // properties.Skipable (documented for JSON only)
-	NoiseAlign                // align.PropertyType (documented for text tables and Markdown only)
+	NoiseSkipable  = 1 << iota // properties.Skipable (documented for JSON only)
+	NoiseAlign                 // align.PropertyType (documented for text tables and Markdown only)
+	NoiseCallbacks             // callbacks that do nothing, on the table or column 0
 )
 
 func (p *PropSpec) key() interface{} {
@@ -172,6 +204,7 @@ func (s *TableSpec) BuildStagedN(t tabular.Table, ats []int, mid func()) *Built 
 		}
 	}
 	b := &Built{T: t, Cells: make([][]Made, len(s.Rows)), spec: s}
+	s.registerBystanders(t)
 	hdr := func() {
 		if !s.HasHeader {
 			return
@@ -441,8 +474,17 @@ func (r *R) Table(o TableOpts) TableSpec {
 			s.Rows = append(s.Rows, RowSpec{Items: []ItemSpec{it}})
 		}
 	}
-	if o.Noise != 0 && r.Chance(1, 3) {
+	if o.Noise&(NoiseSkipable|NoiseAlign) != 0 && r.Chance(1, 3) {
 		s.Props = r.noise(&s, o.Noise)
+	}
+	if o.Noise&NoiseCallbacks != 0 && r.Chance(1, 4) {
+		for n := r.Range(1, 3); n > 0; n-- {
+			b := CbSpec{OnColumn0: r.Bool(), Time: r.Intn(4), Target: r.Intn(3)}
+			if b.OnColumn0 && b.Target == 2 {
+				b.Target = 1 // columns take cell and itself targets only
+			}
+			s.Bystanders = append(s.Bystanders, b)
+		}
 	}
 	return s
 }
